@@ -47,6 +47,13 @@ func (ip *Interp) findIntrinsic(fn *ssa.Function) *Native {
 		}
 	}
 	name := fn.String()
+	if target, ok := ip.P.Overrides[name]; ok {
+		if hf := ip.P.FindHarness(target); hf != nil {
+			return &Native{Name: "override:" + name, Fn: func(ip *Interp, args []Value) Value {
+				return ip.callSSAPlain(nil, 0, hf, args, nil)
+			}}
+		}
+	}
 	if n, ok := ip.P.intrinsics[name]; ok {
 		return n
 	}
@@ -837,6 +844,27 @@ func buildIntrinsics() map[string]*Native {
 			arr[i] = MkStr(x)
 		}
 		return Slice{A: arr, O: ip.newObj(types.Typ[types.String], "regexp")}
+	})
+	reg("(*regexp.Regexp).FindAllStringSubmatch", func(ip *Interp, a []Value) Value {
+		re, _ := a[0].(Opaque).V.(*regexp.Regexp)
+		s, ok := goStr(a[1])
+		n := ip.term(a[2])
+		if !ok || !n.IsConst() || re == nil {
+			ip.unsupported("regexp FindAllStringSubmatch on symbolic input")
+		}
+		r := re.FindAllStringSubmatch(s, int(n.Int()))
+		if r == nil {
+			return Slice{}
+		}
+		outer := make([]Value, len(r))
+		for i, mm := range r {
+			inner := make([]Value, len(mm))
+			for j, x := range mm {
+				inner[j] = MkStr(x)
+			}
+			outer[i] = Slice{A: inner, O: ip.newObj(types.Typ[types.String], "regexp")}
+		}
+		return Slice{A: outer, O: ip.newObj(nil, "regexp")}
 	})
 	reg("(*regexp.Regexp).FindAllStringSubmatchIndex", func(ip *Interp, a []Value) Value {
 		re, _ := a[0].(Opaque).V.(*regexp.Regexp)
